@@ -337,5 +337,35 @@ def rule_deleg(repo, tier):
     return res
 
 
+def rule_ext(repo, tier):
+    res = RuleResult('C12.EXT', 'cumops_: the number of doubling strides and the index range of every stride are derived from one and the same '
+                     'extent, the size of the scanned dimension', floor=2)
+    f = repo.func(OPS, 'cumops_')
+    env = _StmtEnvs(f)
+    sizes = []
+    for c, bounds in int_range_sites(f):
+        atoms = set()
+        for b in bounds:
+            v = env.value_at(c, b)
+            for n in ast.walk(v):
+                if isinstance(n, ast.Subscript) and isinstance(n.value, ast.Attribute) and n.value.attr == 'shape':
+                    atoms.add(src(n).replace(' ', ''))
+                if isinstance(n, ast.Call) and dotted(n.func) == 'len':
+                    atoms.add(src(n).replace(' ', ''))
+                if isinstance(n, ast.Call) and isinstance(n.func, ast.Attribute) and n.func.attr in ('size', 'numel'):
+                    atoms.add(src(n).replace(' ', ''))
+        sizes.append((c, atoms))
+        res.inst({'function': f.fq, 'site': src(c)[:60], 'extent_atoms': sorted(atoms)}, norm_construct(c, f.node))
+    dimname = f.pos_params[1]
+    want = '%s.shape[%s]' % (f.pos_params[0], dimname)
+    allatoms = set().union(*[a for _, a in sizes]) if sizes else set()
+    if len(allatoms) > 1 or (allatoms and want not in allatoms):
+        res.add(Finding('C12.EXT', f, 'the stride schedule and the index ranges of cumops_ are bounded by different extents %s; both must follow '
+                        'the size of the scanned dimension `%s`' % (sorted(allatoms), want), construct='extent atoms %s' % sorted(allatoms)))
+    return res
+
+
 def rules(repo, tier):
-    return [rule_ki(repo, tier), rule_role(repo, tier), rule_sb(repo, tier), rule_clone_alias(repo, tier), rule_deleg(repo, tier)]
+    from ..stale import rule_stale
+    return [rule_ki(repo, tier), rule_role(repo, tier), rule_sb(repo, tier), rule_clone_alias(repo, tier), rule_deleg(repo, tier), rule_ext(repo, tier),
+            rule_stale(repo, 'C12.STALE', [(OPS, 'cumops_')])]
